@@ -18,6 +18,7 @@ import (
 	"fmt"
 	"math"
 	"os"
+	"sort"
 	"strconv"
 	"strings"
 	"testing"
@@ -677,6 +678,199 @@ func TestVerifC30(t *testing.T) {
 		}
 		rep.Count("stored-literal")
 		readCols(res[0].GetE().LastInsertId, "SQL literal "+lit)
+	}
+
+	// ---- the parameter loop of ParseRequest as a whole: several items, positional and objects mixed ----
+	names := []string{"a", "b", "p", "é", "", "a b"}
+	for n := vfScale(400, 20000); n > 0; n-- {
+		type group struct {
+			named bool
+			keys  []string // distinct keys of an object (a positional item: one "")
+		}
+		var items, toks []string
+		var groups []group
+		wantErr := false
+		for k := r.Intn(5); k > 0; k-- {
+			if r.Chance(55) {
+				v := c30Gen(r)
+				items = append(items, v.json)
+				toks = append(toks, "p="+v.tok)
+				groups = append(groups, group{false, []string{""}})
+				wantErr = wantErr || v.class == "error"
+				continue
+			}
+			var ms, mt []string
+			last := map[string]string{} // key -> class of its LAST member (Go's decoder keeps that one)
+			var order []string
+			for m := r.Intn(4); m > 0; m-- {
+				key := names[r.Intn(len(names))]
+				v := c30Gen(r)
+				if r.Chance(8) {
+					v = c30Val{json: `{"x": 1}`, tok: "o", class: "error", label: "nested-object"}
+				}
+				kb, _ := json.Marshal(key)
+				ms = append(ms, string(kb)+": "+v.json)
+				mt = append(mt, vfHex(key)+"="+v.tok)
+				if _, seen := last[key]; !seen {
+					order = append(order, key)
+				}
+				last[key] = v.class
+			}
+			for _, c := range last {
+				wantErr = wantErr || c == "error"
+			}
+			items = append(items, "{"+strings.Join(ms, ", ")+"}")
+			toks = append(toks, "n="+strings.Join(mt, ";"))
+			groups = append(groups, group{true, order})
+			if len(order) < len(ms) {
+				rep.Count("args:object-with-repeated-key")
+			}
+		}
+		body := `[["SELECT 1"` + strings.Join(append([]string{""}, items...), ", ") + `]]`
+		rep.Count(fmt.Sprintf("args:%d-items", len(items)))
+		stmts, perr := ParseRequest(strings.NewReader(body))
+		rep.Case("args:"+body, perr == nil)
+		replay := map[string]interface{}{"request": body}
+		op := strings.TrimSpace("args " + strings.Join(toks, " "))
+		if perr != nil {
+			add(op, "error")
+			if !wantErr {
+				rep.Fail("parameter-rejected:args", fmt.Sprintf("ParseRequest rejected %s: %v", body, perr), replay)
+			}
+			continue
+		}
+		if wantErr {
+			rep.Fail("malformed-parameter-accepted:args", fmt.Sprintf("ParseRequest accepted %s", body), replay)
+		}
+		ps := stmts[0].Parameters
+		var out []string
+		pos := 0
+		shapeOK := true
+		for _, g := range groups {
+			if pos+len(g.keys) > len(ps) {
+				shapeOK = false
+				break
+			}
+			part := append([]*command.Parameter(nil), ps[pos:pos+len(g.keys)]...)
+			pos += len(g.keys)
+			sort.SliceStable(part, func(i, j int) bool { return part[i].Name < part[j].Name })
+			want := append([]string(nil), g.keys...)
+			sort.Strings(want)
+			for i, q := range part {
+				out = append(out, vfHex(q.Name)+"="+c30ParamStr(q))
+				if q.Name != want[i] {
+					shapeOK = false
+				}
+			}
+		}
+		if !shapeOK || pos != len(ps) {
+			rep.Fail("parameter-names-or-order-wrong", fmt.Sprintf("%s produced %d parameters %v, items %v", body, len(ps), out, groups), replay)
+		}
+		if len(out) == 0 {
+			add(op, "-")
+		} else {
+			add(op, strings.Join(out, " "))
+		}
+	}
+
+	// ---- the associative form on its own: column names incl. repeated ones ----
+	colNames := []string{"a", "b", "c", "a b", "é"}
+	for n := vfScale(300, 20000); n > 0; n-- {
+		k := 1 + r.Intn(5)
+		var cols, types, colToks, storeds []string
+		var params []*command.Parameter
+		for i := 0; i < k; i++ {
+			cols = append(cols, colNames[r.Intn(len(colNames))])
+			types = append(types, "")
+			colToks = append(colToks, vfHex(cols[i]))
+			var p *command.Parameter
+			var st string
+			switch r.Intn(6) {
+			case 0:
+				z := int64(r.U64())
+				p, st = &command.Parameter{Value: &command.Parameter_I{I: z}}, "integer:"+strconv.FormatInt(z, 10)
+			case 1:
+				f := []float64{1.5, 100, -0.25, 1e100}[r.Intn(4)]
+				p, st = &command.Parameter{Value: &command.Parameter_D{D: f}}, "real:"+vfHex(c30FltTok(f))
+			case 2:
+				t := []string{"txt", "", "héllo", "1"}[r.Intn(4)]
+				p, st = &command.Parameter{Value: &command.Parameter_S{S: t}}, "text:"+vfHex(t)
+			case 3:
+				b := [][]byte{{0, 255, 65}, {}, {104, 105}}[r.Intn(3)]
+				p, st = &command.Parameter{Value: &command.Parameter_Y{Y: b}}, "blob:"+vfHexB(b)
+			case 4:
+				bv := r.Bool()
+				p, st = &command.Parameter{Value: &command.Parameter_B{B: bv}}, "bool"
+			default:
+				p, st = &command.Parameter{}, "null"
+			}
+			params = append(params, p)
+			storeds = append(storeds, st)
+		}
+		q := &command.QueryRows{Columns: cols, Types: types, Values: []*command.Values{{Parameters: params}}}
+		for _, blobArray := range []bool{false, true} {
+			// what the ARRAY form holds at each position
+			var jouts []string
+			ab, err := (&encoding.Encoder{BlobsAsByteArrays: blobArray}).JSONMarshal([]*command.QueryRows{q})
+			if err != nil {
+				t.Fatal(err)
+			}
+			adec, err := c30DecodeJSON(ab)
+			if err != nil {
+				t.Fatal(err)
+			}
+			arow := adec.([]any)[0].(map[string]any)["values"].([]any)[0].([]any)
+			for i := range cols {
+				jouts = append(jouts, c30JOut(arow[i], storeds[i], false))
+			}
+			b, err := (&encoding.Encoder{Associative: true, BlobsAsByteArrays: blobArray}).JSONMarshal([]*command.QueryRows{q})
+			if err != nil {
+				t.Fatal(err)
+			}
+			dec, err := c30DecodeJSON(b)
+			if err != nil {
+				t.Fatal(err)
+			}
+			row := dec.([]any)[0].(map[string]any)["rows"].([]any)[0].(map[string]any)
+			rep.Count("assoc-row")
+			seen := map[string]bool{}
+			dup := false
+			for i, c := range append(append([]string(nil), cols...), "zz") {
+				if seen[c] {
+					dup = true
+					continue
+				}
+				seen[c] = true
+				got := "none"
+				if v, ok := row[c]; ok {
+					// the stored class of the LAST column of that name decides how a string is read
+					st := ""
+					for ii := range cols {
+						if cols[ii] == c {
+							st = storeds[ii]
+						}
+					}
+					got = c30JOut(v, st, false)
+				}
+				add(fmt.Sprintf("assoc %s %s %s", strings.Join(colToks, ","), strings.Join(jouts, ","), vfHex(c)), got)
+				// spec: with distinct names the associative value is the array value of that column
+				if i < len(cols) {
+					cnt := 0
+					for _, o := range cols {
+						if o == c {
+							cnt++
+						}
+					}
+					if cnt == 1 && got != jouts[i] {
+						rep.Fail("associative-differs-from-array", fmt.Sprintf("column %q: array form %s, associative form %s (%s)", c, jouts[i], got, b), nil)
+					}
+				}
+			}
+			if dup {
+				rep.Count("assoc-row-with-repeated-column-name")
+			}
+			rep.Case(fmt.Sprintf("assoc:%v:%v:%v", cols, storeds, blobArray), true)
+		}
 	}
 
 	rep.vfCompareSegments("values", c30Chunks(ops, 300), c30Chunks(impl, 300))
